@@ -51,6 +51,13 @@ import os as _os
 if _os.path.exists(_os.path.join(_os.path.dirname(_os.path.dirname(_os.path.dirname(_os.path.abspath(__file__)))),
                                  "lean", "WV", "Props", "PyIR_C15.lean")):
     PROP_MODULES.append("WV.Props.PyIR_C15")
+# [deepDil2] second part of the Dilation data path (agents/deepDil2_integration.md)
+if _os.path.exists(_os.path.join(_os.path.dirname(_os.path.dirname(_os.path.dirname(_os.path.abspath(__file__)))),
+                                 "lean", "WV", "Props", "PyIRDil2_C15.lean")):
+    PROP_MODULES.append("WV.Props.PyIRDil2_C15")
+if _os.path.exists(_os.path.join(_os.path.dirname(_os.path.dirname(_os.path.dirname(_os.path.abspath(__file__)))),
+                                 "lean", "WV", "Props", "PyIRDil2_C15b.lean")):
+    PROP_MODULES.append("WV.Props.PyIRDil2_C15b")      # needs tools/extract.py::extract_pyir_dil2 (WV.Gen.PyIRDil2)
 TRUSTED = [
     "producers are ids in the model; that Outbound.resumeProducing's loop ends on `p is None` and not on the truth value "
     "of a producer object is pinned from the source (resume_loop_ends_only_on_none) and the witness with a falsy "
